@@ -1,33 +1,52 @@
 #!/venv/bin/python
 """Copies behaviour-preserving refactorings from the sub-agents' worktrees into /verif/refactorings/<id>/ after re-verifying them
-(patch applies on /repo HEAD, compiles, pinned suite unchanged)."""
-import json, shutil, subprocess, sys, tempfile
+(patch applies on /repo HEAD, compiles, pinned suite unchanged). Verification runs on scratch copies (git archive), 8 at a time."""
+import json, multiprocessing as mp, shutil, subprocess, sys, tempfile
 from pathlib import Path
 
 VERIF = Path("/verif")
 out = VERIF / "refactorings"
-out.mkdir(exist_ok=True)
-for sd in sorted(Path("/tmp/refac").glob("C*/REFAC/C*-*")):
-    dst = out / sd.name
-    if (dst / "meta.json").exists() and "--force" not in sys.argv:
-        continue
-    if not (sd / "patch.diff").exists():
-        continue
-    wt = Path(tempfile.mkdtemp(prefix="refacverify-")); wt.rmdir()
-    subprocess.run(["git", "-C", "/repo", "worktree", "add", "-q", "--detach", str(wt), "HEAD"], check=True)
+SRC = Path("/tmp/refac")
+
+
+def verify(sd: Path):
+    tmp = Path(tempfile.mkdtemp(prefix="refacverify-"))
     try:
-        r = subprocess.run(["git", "apply", "--whitespace=nowarn", str(sd / "patch.diff")], cwd=wt, capture_output=True, text=True)
+        subprocess.run(f"git -C /repo archive HEAD | tar -x -C {tmp}", shell=True, check=True)
+        subprocess.run(["git", "init", "-q", "."], cwd=tmp, capture_output=True)
+        r = subprocess.run(["git", "apply", "--whitespace=nowarn", str(sd / "patch.diff")], cwd=tmp, capture_output=True, text=True)
         if r.returncode != 0:
-            print(sd.name, "PATCH-FAILED", r.stderr.strip()[-100:]); continue
-        suite = subprocess.run(f"PYTHONPATH={wt}/src timeout 600 /venv/bin/python -m pytest -q -p no:cacheprovider --timeout=30 --ignore=tests/test_architecture.py 2>&1 | tail -1", shell=True, cwd=wt, capture_output=True, text=True).stdout.strip()
-        ok = suite.startswith("5 failed, 851 passed")
-        print(sd.name, suite, "=> KEEP" if ok else "=> REJECT")
-        if not ok:
-            continue
-        dst.mkdir(exist_ok=True)
-        for f in ("patch.diff", "notes.md"):
-            if (sd / f).exists():
-                shutil.copy(sd / f, dst / f)
-        (dst / "meta.json").write_text(json.dumps({"id": sd.name, "property": sd.name.split("-")[0], "kind": "behaviour-preserving refactoring (independent sub-agent; only the property text and file list were given)", "verified": suite, "checks": {}}, indent=1) + "\n")
+            return sd, "PATCH-FAILED " + r.stderr.strip()[-100:], False
+        c = subprocess.run(["/venv/bin/python", "-m", "compileall", "-q", "src"], cwd=tmp, capture_output=True)
+        suite = subprocess.run(f"PYTHONPATH={tmp}/src timeout 600 /venv/bin/python -m pytest -q -p no:cacheprovider --timeout=60 --ignore=tests/test_architecture.py 2>&1 | tail -1", shell=True, cwd=tmp, capture_output=True, text=True).stdout.strip()
+        ok = suite.startswith("5 failed, 851 passed") and c.returncode == 0
+        return sd, suite, ok
     finally:
-        subprocess.run(["git", "-C", "/repo", "worktree", "remove", "--force", str(wt)], capture_output=True)
+        shutil.rmtree(tmp, ignore_errors=True)
+
+
+def main():
+    out.mkdir(exist_ok=True)
+    todo = []
+    for sd in sorted(SRC.glob("C*/REFAC/C*-*")):
+        dst = out / sd.name
+        if (dst / "meta.json").exists() and "--force" not in sys.argv:
+            continue
+        if not (sd / "patch.diff").exists() or (sd / "patch.diff").stat().st_size == 0:
+            continue
+        todo.append(sd)
+    with mp.get_context("fork").Pool(8) as pool:
+        for sd, suite, ok in pool.imap_unordered(verify, todo):
+            print(sd.name, suite, "=> KEEP" if ok else "=> REJECT")
+            if not ok:
+                continue
+            dst = out / sd.name
+            dst.mkdir(exist_ok=True)
+            for f in ("patch.diff", "notes.md"):
+                if (sd / f).exists():
+                    shutil.copy(sd / f, dst / f)
+            (dst / "meta.json").write_text(json.dumps({"id": sd.name, "property": sd.name.split("-")[0], "kind": "behaviour-preserving refactoring (independent sub-agent; only the property text and file list were given)", "verified": suite, "checks": {}}, indent=1) + "\n")
+
+
+if __name__ == "__main__":
+    main()
